@@ -997,6 +997,26 @@ func init() {
 						}})
 				}
 			}
+			// the same query patterns on a generic tokenizer whose symbols carry token types of the user's choice
+			{
+				kind := "generic+typedsym"
+				pool := []string{"a;b", ";a", "a;", "a::b;c@@", ";;", "a $ b", "$;$", "a"}
+				m := 4
+				if tier == "thorough" {
+					m = 6
+				}
+				np := countStrings(3, m) - countStrings(3, m-1)
+				for _, o := range []int{0, optSkipWhitespaces | optSkipComments | optSkipEof | optDecode} {
+					o := o
+					sp = append(sp, fw.Space{Name: fmt.Sprintf("hasnext:%s%s", kind, optStr(o)), N: np * int64(len(pool)),
+						Run: func(c *fw.Ctx, i int64) {
+							c05HasNext(c, kind, o, pool[int(i%int64(len(pool)))], seqByIndex(3, countStrings(3, m-1)+i/int64(len(pool))))
+						},
+						Repr: func(i int64) string {
+							return fmt.Sprintf("%s tokenizer %s, input %q, HasNextToken counts before fetches %v", kind, optStr(o), pool[int(i%int64(len(pool)))], seqByIndex(3, countStrings(3, m-1)+i/int64(len(pool))))
+						}})
+				}
+			}
 			return sp
 		},
 		Bounds: func(tier string) string {
